@@ -104,6 +104,17 @@ def parseEvent (toks : List String) : Option Event :=
   | "installsnap" :: r => match nats r with | some [i, t, idx, st] => some (.installSnap i t idx st) | _ => none
   | "bootstrap" :: r => match nats r with | some [i, d, idx] => some (.bootstrap i d idx) | _ => none
   | "commitsnap" :: r => match nats r with | some [i, t, idx, st] => some (.commitSnap i t idx st) | _ => none
+  | "rissue" :: r => match nats r with | some [i, rid] => some (.read (.issue i rid)) | _ => none
+  | "rstart" :: r => match nats r with | some [i, rid] => some (.read (.start i rid)) | _ => none
+  | "rhback" :: r => match nats r with | some [v] => some (.read (.hback v)) | _ => none
+  | "rresp" :: i :: rid :: idx :: r =>
+    match i.toNat?, rid.toNat?, idx.toNat?, takePCfg r with
+    | some i, some rid, some idx, some (cfg, []) => some (.read (.resp i rid idx cfg))
+    | _, _, _, _ => none
+  | "rstate" :: j :: rid :: idx :: r =>
+    match j.toNat?, rid.toNat?, idx.toNat?, takePCfg r with
+    | some j, some rid, some idx, some (cfg, []) => some (.read (.rstate j rid idx cfg))
+    | _, _, _, _ => none
   | _ => none
 
 /-- the closure chain built by `upd` is flattened from time to time (ids 0..15) -/
